@@ -296,6 +296,14 @@ func ReplayWALFile(path string, handler EntryHandler) (*RecoveryStats, error) {
 				break
 			}
 
+			// A record that was only partially written is what a crash leaves
+			// at the end of the log: everything before it is intact, so stop
+			// replaying this file here instead of failing the whole recovery
+			if isTruncatedTail(err) {
+				stats.EntriesSkipped++
+				break
+			}
+
 			// Check if this is a corruption error
 			if strings.Contains(err.Error(), "corrupt") ||
 				strings.Contains(err.Error(), "invalid") {
@@ -337,6 +345,28 @@ func ReplayWALFile(path string, handler EntryHandler) (*RecoveryStats, error) {
 	}
 
 	return stats, nil
+}
+
+// isTruncatedTail reports whether the error means that the file ended in the
+// middle of a record or in the middle of a fragmented entry
+func isTruncatedTail(err error) bool {
+	return err != nil && strings.Contains(err.Error(), "unexpected EOF")
+}
+
+// endsCleanly reports whether every byte of the WAL file belongs to a complete,
+// valid entry, i.e. whether it is safe to append to the file
+func endsCleanly(path string) bool {
+	reader, err := OpenReader(path)
+	if err != nil {
+		return false
+	}
+	defer reader.Close()
+
+	for {
+		if _, err := reader.ReadEntry(); err != nil {
+			return err == io.EOF
+		}
+	}
 }
 
 // recoverFromCorruption attempts to recover from a corrupted record by scanning ahead
